@@ -437,14 +437,21 @@ def check_partition(chk):
             elif ini == ref_p + '.functionIDs':
                 cursor['ref'] = n['name']
     chk.require(set(cursor) == {'fn', 'ref'}, 'cursor variables of the split function not recognised: %r' % cursor)
-    loops = [n for n in body.get('inner', []) if n.get('kind') == 'WhileStmt']
+    loops = [n for n in body.get('inner', []) if n.get('kind') in ('WhileStmt', 'ForStmt')]
     chk.require(len(loops) == 2, 'split function has %d top-level loops (expected merge loop + drain loop)' % len(loops))
     cmpvar = None
     site = 'wasmSplitStaticAndDynamicFunctions'
     for li, loop in enumerate(loops):
-        cond = astdb.expr_text(strip(loop['inner'][-2], casts=True))
-        paths = iteration_paths(loop['inner'][-1], tu)
-        for d in walk(loop['inner'][-1]):
+        if loop['kind'] == 'ForStmt':
+            cond_node, body_node, inc_node = loop['inner'][2], loop['inner'][4], loop['inner'][3]
+        else:
+            cond_node, body_node, inc_node = loop['inner'][-2], loop['inner'][-1], None
+        cond = astdb.expr_text(strip(cond_node, casts=True))
+        paths = iteration_paths(body_node, tu)
+        if inc_node is not None and inc_node.get('kind'):
+            inc_ev = _events(inc_node, tu)
+            paths = [(c_, e_ if (e_ and e_[-1] == ('exit',)) else e_ + inc_ev) for c_, e_ in paths]
+        for d in walk(body_node):
             if d.get('kind') == 'VarDecl' and d.get('init') and any(x.get('kind') == 'CallExpr' and astdb.callee_name(x) == 'wasmFunctionIDsCompareHashes' for x in walk(d)):
                 call = [x for x in walk(d) if x.get('kind') == 'CallExpr'][0]
                 args = [astdb.expr_text(strip(a, casts=True)) for a in astdb.call_args(call)]
